@@ -181,12 +181,26 @@ def _observe(ctx):
             rc2, sz, e2 = _run([calc, "-batch", f, "-size", str(K)])
             ranges = _parse_list(o)
             runs = []
-            for (a, b) in (ranges or []):
-                rc3, o3, e3 = _run([h2g, "-module", "batch", "-concurrent", "2", "-logoutput", "-batch", f, "-lines", "%d-%d" % (a, b)])
+            tasks = [(a, b, 0, False) for (a, b) in (ranges or [])]
+            if ranges:      # the other forms the -lines parser accepts: "a-end" and "N" (not part of the cover, checked per task)
+                a0, b0 = ranges[r.randrange(len(ranges))]
+                tasks += [(a0, 0, 1, True), (0, b0, 2, True)]
+            for ti, (a, b, form, extra) in enumerate(tasks):
+                spec = "%d-%d" % (a, b) if form == 0 else ("%d-end" % a if form == 1 else "%d" % b)
+                # the options in a different order on every command line (0 -batch 1 -lines 2 -concurrent 3 -logoutput 4 -module 5 -workingdir)
+                groups = {0: ["-batch", f], 1: ["-lines", spec], 2: ["-concurrent", "2"], 3: ["-logoutput"], 4: ["-module", "batch"], 5: ["-workingdir", work]}
+                order = [0, 1, 2, 3, 4] + ([5] if r.random() < 0.3 else [])
+                r.shuffle(order)
+                if (ti + i + K) % 3 == 0 and order.index(1) > order.index(0):      # at least a third with -lines before -batch
+                    x, y = order.index(0), order.index(1)
+                    order[x], order[y] = order[y], order[x]
+                cmdline = [h2g] + [t for g in order for t in groups[g]]
+                rc3, o3, e3 = _run(cmdline)
                 head, _, summary = o3.partition("Error Summary:")
                 ids = [int(m) for m in re.findall(r"(?m)^\[(\d+)\]$", head)]
                 which = {int(m.group(1)): int(m.group(2)) for m in re.finditer(r"(?m)^\[(\d+)\] Error: invalid crop parameter name: Zq(\d+)\s*$", summary)}
-                runs.append({"a": a, "b": b, "ids": ids, "lines": [which.get(x) for x in ids], "rc": rc3, "tail": (o3 + e3)[-200:] if rc3 else ""})
+                runs.append({"a": a, "b": b, "form": form, "extra": extra, "spec": spec, "order": order, "cmd": " ".join(cmdline[1:]).replace(f, "f").replace(work, "w"),
+                             "ids": ids, "lines": [which.get(x) for x in ids], "rc": rc3, "tail": (o3 + e3)[-200:] if rc3 else ""})
             out.append({"file": data, "n": expect, "K": K, "size": sz, "list": o[:300], "ranges": ranges, "runs": runs})
         return out
 
@@ -270,12 +284,13 @@ def correspond(ctx):
                 continue
             NOLINE = (1 << 20) - 1      # the log id executed something that is none of the generated lines (e.g. a blank line)
             pairs = ["%d" % ((i << 20) + (NOLINE if j is None or j >= NOLINE else j)) for i, j in zip(r["ids"], r["lines"])]
-            dcs.append(("(%d, [%s])" % ((d["n"] << 40) + (r["a"] << 20) + r["b"], "; ".join(pairs)),
-                        "n=%d -lines %d-%d -> ids %s lines %s" % (d["n"], r["a"], r["b"], r["ids"], r["lines"])))
+            dcs.append(("(%d, %d, [%s], [%s])" % ((d["n"] << 40) + (r["a"] << 20) + r["b"], r["form"], "; ".join(map(str, r["order"])), "; ".join(pairs)),
+                        "n=%d %s -> ids %s lines %s" % (d["n"], r["cmd"], r["ids"], r["lines"])))
+            c.bump("lines-before-batch" if r["order"].index(1) < r["order"].index(0) else "batch-before-lines")
     if dcs:
         index["Cases_C17_disp"] = [x[1] for x in dcs]
         items.append(("Cases_C17_disp", "\n".join(hdr + [
-            "Definition cases : list (int * list int) := %s." % chunked_list([x[0] for x in dcs], "(int * list int)"),
+            "Definition cases : list (int * int * list int * list int) := %s." % chunked_list([x[0] for x in dcs], "(int * int * list int * list int)"),
             "Definition MM := Eval vm_compute in mismatches disp_case_ok 0%Z cases.", "Print MM."]) + "\n"))
     c.cases = len(pcs) + len(ccs) + len(dcs)
     c.nontrivial = len({p[1] for p in pcs}) + len({p[0] for p in ccs}) + len({x[1] for x in dcs})
@@ -318,14 +333,25 @@ def oracle(ctx, search):
                 unexplained += 1
     for d in obs["disp"]:
         defect = _cover_defect(d["n"], d["size"], d["ranges"]) if d["n"] >= 1 else None
-        ids = [i for r in d["runs"] for i in r["ids"]]
-        texts = [j for r in d["runs"] for j in r["lines"]]
+        cover = [r for r in d["runs"] if not r["extra"]]
+        ids = [i for r in cover for i in r["ids"]]
+        texts = [j for r in cover for j in r["lines"]]
         if defect is None and d["n"] >= 1 and ids != list(range(d["n"])):
             defect = "log ids started over all ranges: %s, expected each of 0..%d once" % (ids, d["n"] - 1)
         if defect is None and d["n"] >= 1 and texts != list(range(d["n"])):
             times = {j: texts.count(j) for j in range(d["n"])}
             defect = ("batch lines executed over all ranges: %s (None = a run that is none of the non-empty lines); every non-empty line "
                       "0..%d must be executed exactly once, counts %s" % (texts, d["n"] - 1, times))
+        # every single task executes exactly its range, wherever -lines stands on the command line
+        for r in d["runs"]:
+            if r["rc"] != 0:
+                continue
+            lo, hi = {0: (r["a"] - 1, min(r["b"], d["n"])), 1: (r["a"] - 1, d["n"]), 2: (0, min(r["b"], d["n"]))}[r["form"]]
+            want = list(range(lo, hi))
+            if r["ids"] != want or r["lines"] != want:
+                fails.append(Fail(key="task -lines %s %s" % ("a-b a-end N".split()[r["form"]], "before -batch" if r["order"].index(1) < r["order"].index(0) else "after -batch"),
+                                  what="hermes2go %s on a batch file with %d non-empty lines executed lines %s (log ids %s); the range is lines %s"
+                                       % (r["cmd"], d["n"], r["lines"], r["ids"], want), batch_file=d["file"]))
         if defect is None and any(r["rc"] != 0 for r in d["runs"]):
             defect = "hermes2go aborted on a printed range"
         if defect:
